@@ -77,6 +77,8 @@ def Val.StrSafe (r : Scalar) (x : Val) : Prop :=
   (inferDType x.scalars).promote r.dtype ≠ some .str ∨
     (r.dtype = .str ∧ ∀ s ∈ x.scalars, s.dtype = .str)
 
+instance (r : Scalar) (x : Val) : Decidable (x.StrSafe r) := by unfold Val.StrSafe; exact inferInstance
+
 /-- `RowWiseRepl` restricted to argument lists satisfying `A` (e.g. every column `StrSafe`) -/
 def RowWiseReplOn (A : List Val → Prop) (dec : List Val → Except ErrKind (List X)) (r : Scalar)
     (rr : X → X) : Prop :=
